@@ -630,9 +630,17 @@ namespace
             else if (p.kind == "abs") { when = g_start + TimeDelta{p.us}; sched.schedule(when); }
             else if (p.kind == "wall") { when = g_start + TimeDelta{p.us}; sched.schedule(when, std::nullopt, true); }
             else if (p.kind == "due") { when = g_start - TimeDelta{p.us}; sched.schedule(when, std::nullopt, true); }
+            else if (p.kind == "wrel")
+            {
+                // a wall-clock alarm requested as a DELAY: it counts from the later of the cycle's time and the wall clock (read
+                // here BEFORE the request, so the engine's own reading is not earlier): never earlier than that
+                const DateTime wall0 = hgraph::testing::wall_now();
+                when = (wall0 > now ? wall0 : now) + TimeDelta{p.us};
+                sched.schedule(TimeDelta{p.us}, std::nullopt, true);
+            }
             // the wall clock at the request decides whether a wall-clock alarm can still fall inside the run window
             g_trace->line("R t" + std::to_string((long long)idx.value()) + " " + std::to_string(us_since(now, g_start)) + " " +
-                          std::to_string(us_since(when, g_start)) + " " + p.kind + " " +
+                          std::to_string(us_since(when, g_start)) + " " + (p.kind == "wrel" ? std::string("wall") : p.kind) + " " +
                           std::to_string(us_since(hgraph::testing::wall_now(), g_start)));
         }
         static void eval(NodeScheduler sched, State<Int> st, Scalar<"idx", Int> idx, DateTime now, Out<TS<Int>> out)
